@@ -150,7 +150,8 @@ Proof. exact category_localized_spec. Qed.
 Print Assumptions c07_category_localized.
 
 (* "a timeout resume leaves by the wait's timeout category" — for every router kind, whatever cases, operand, default
-   or draw; the result's value is the time of the timeout, its input empty, the segment has no operand *)
+   or draw; the result's value is the text timed_out_on handed in by the caller (which text that is: c07_timeout_value),
+   its input empty, the segment has no operand *)
 Theorem c07_timeout :
   forall (value : Type) (eval_tpl : text -> value * (bool * nat)) (to_xtext : value -> option text)
          (registered : test_id -> bool) (test : test_id -> value -> list value -> test_result value)
@@ -289,3 +290,81 @@ Theorem c07_segment_operand :
        end.
 Proof. exact segment_operand_spec. Qed.
 Print Assumptions c07_segment_operand.
+
+(* which time a timeout result records (the statement of C07 is silent on it): RouteTimeout scans the run's events and
+   keeps the time of the run's FIRST wait_timed_out event — for a run that timed out before, not the time of the timeout
+   being handled, although the comment in base.go says "last" (observation, see Demo.second_timeout_records_first) *)
+Theorem c07_timeout_value :
+  forall (value : Type) (eval_tpl : text -> value * (bool * nat)) (to_xtext : value -> option text)
+         (registered : test_id -> bool) (test : test_id -> value -> list value -> test_result value)
+         (lc : lctx) (max_result_chars : nat)
+         (site : call_site) (flow_nodes : list uuid) (nd : node) (r : router) (d : draw) (times : list text)
+         (prev : option result) (u : uuid) (c : category),
+  n_router nd = Some r ->
+  b_timeout (router_base r) = Some u -> category_with (router_base r) u c -> c_exit c <> no_uuid ->
+  b_result_name (router_base r) <> [] ->
+  scan_timeouts times = hd zero_time_text times
+  /\ vo_saved (visit value eval_tpl to_xtext registered test lc max_result_chars site flow_nodes nd true d
+                     (scan_timeouts times) prev)
+     = Some (result_for lc max_result_chars (router_base r) c (hd zero_time_text times) [] None).
+Proof.
+  exact (fun value eval_tpl to_xtext registered test lc max_result_chars site flow_nodes nd r d times prev u c
+             Hr Ht Hcat Hex Hn =>
+           conj (scan_timeouts_first times)
+                (timeout_value_spec value eval_tpl to_xtext registered test lc max_result_chars site flow_nodes nd r d
+                                    times prev u c Hr Ht Hcat Hex Hn)).
+Qed.
+Print Assumptions c07_timeout_value.
+
+(* "leaves by": the exit a router answers is the exit of the step — also when no result is saved — with the segment
+   that exit prescribes *)
+Theorem c07_leaves :
+  forall (value : Type) (eval_tpl : text -> value * (bool * nat)) (to_xtext : value -> option text)
+         (registered : test_id -> bool) (test : test_id -> value -> list value -> test_result value)
+         (lc : lctx) (max_result_chars : nat)
+         (site : call_site) (flow_nodes : list uuid) (nd : node) (r : router) (is_timeout : bool) (d : draw)
+         (timed_out_on : text) (prev : option result) (u : uuid) (op : text),
+  n_router nd = Some r ->
+  ro_res (router_out value eval_tpl to_xtext registered test lc max_result_chars r is_timeout d timed_out_on prev)
+  = RExit u op ->
+  u <> no_uuid ->
+  let out := router_out value eval_tpl to_xtext registered test lc max_result_chars r is_timeout d timed_out_on prev in
+  let v := visit value eval_tpl to_xtext registered test lc max_result_chars site flow_nodes nd is_timeout d
+                 timed_out_on prev in
+  vo_outcome v = NLeft /\ vo_step_exit v = u /\ vo_saved v = ro_saved out /\ vo_events v = ro_events out
+  /\ (forall e, exit_with nd u e ->
+        vo_segment v = if negb (N.eqb (e_dest e) no_uuid) && existsb (N.eqb (e_dest e)) flow_nodes
+                       then Some (u, (if is_timeout then [] else op), e_dest e) else None)
+  /\ ((forall e, ~ exit_with nd u e) -> vo_segment v = None).
+Proof. exact leaves_spec. Qed.
+Print Assumptions c07_leaves.
+
+(* the one remaining branch of the model: a deciding case WITHOUT a category (Validate rejects such a definition) falls
+   to the default with the operand as value but keeps the case's extra; without default no category is selected *)
+Theorem c07_case_without_category :
+  forall (value : Type) (eval_tpl : text -> value * (bool * nat)) (to_xtext : value -> option text)
+         (registered : test_id -> bool) (test : test_id -> value -> list value -> test_result value)
+         (lc : lctx) (max_result_chars : nat)
+         (b : base_router) (operand_tpl : text) (cases : list case_def) (default : uuid) (prev : option result)
+         (pre : list case_def) (c : case_def) (post : list case_def) (m : option value) (x : extra_v) (mt : text),
+  let operand := operand_of value eval_tpl operand_tpl in
+  let input := operand_text value eval_tpl to_xtext operand_tpl in
+  let R := route_switch value eval_tpl to_xtext registered test lc max_result_chars b operand_tpl cases default prev in
+  cases = pre ++ c :: post -> Forall (passed_over value eval_tpl registered test lc operand) pre ->
+  matches value eval_tpl registered test lc operand c m x ->
+  opt_to_xtext value to_xtext m = Some mt -> k_cat c = no_uuid ->
+  let evs := operand_events value eval_tpl operand_tpl ++ flat_map (skip_events value eval_tpl test lc operand) pre
+             ++ arg_events value eval_tpl lc c ++ extra_events c x in
+  (default = no_uuid -> R = {| ro_res := RExit no_uuid input; ro_saved := None; ro_events := evs |})
+  /\ (forall cat, category_with b default cat ->
+      R = through lc max_result_chars b prev cat input input (extra_json x)
+                  (evs ++ default_events value eval_tpl to_xtext operand_tpl)).
+Proof. exact case_without_category_spec. Qed.
+Print Assumptions c07_case_without_category.
+
+(* the texts in c07_random's conclusion: the saved value N_to_text idx consists of ASCII digits and denotes idx
+   (fmt.Sprintf("%d")); draw_text (Decimal.String()) is shown on examples in proofs/RouterProofs.v *)
+Theorem c07_index_text : forall n : N,
+  Forall is_digit (N_to_text n) /\ digits_value 0 (N_to_text n) = n.
+Proof. exact N_to_text_spec. Qed.
+Print Assumptions c07_index_text.
